@@ -302,6 +302,7 @@ func contract_AppendGroup(b []byte, num Number, v []byte) (r []byte) {
 // ---------------------------------------------------------------- contracts: consume
 
 //@ props C01 C02
+//@ split
 func contract_ConsumeVarint(b []byte) (v uint64, n int) {
 	ensures(n == specVarintLen(b))
 	ensures(imp(n > 0, v == specVarintVal(b, n)))
@@ -341,6 +342,7 @@ func contract_ConsumeTag(b []byte) (num Number, typ Type, n int) {
 }
 
 //@ props C01 C02
+//@ mode int
 func contract_ConsumeBytes(b []byte) (v []byte, n int) {
 	ensures(n == specBytesLen(b))
 	ensures(imp(n < 0, v == nil))
